@@ -135,6 +135,7 @@ def c15_4(ctx):
     dup = [s for s in fn.body if isinstance(s, ast.If) and 'raise_if_duplicate' in U(s.test)]
     if not dup or N(dup[0].test) != NS('raise_if_duplicate and len(set([tuple(node[:-1]) for node in %s])) < len(%s)' % (items, items)) or not any(isinstance(r, ast.Raise) for r in dup[0].body):
         ctx.fail(fn, dup[0] if dup else fn.node, 'duplicate paths are no longer detected as len(set(paths)) < len(items)')
+    none_not_falsy(ctx, fn, [tree], 'an EMPTY tree is a tree (of its own class): only None means "start a new dictattr"; testing truthiness turns Dict() + {...} into a dictattr')
     cp = [s for s in ast.walk(fn.node) if isinstance(s, ast.Assign) and U(s.targets[0]) == tree and N(s.value) == 'copy(%s)' % tree]
     ctx.count(1)
     if not cp:
